@@ -283,6 +283,49 @@ def _obs_job(a):
     return evs, info, (jid, src, cfg, cfg_text, lang)
 
 
+def token_mutations(ctx, n, workdir):
+    """inputs that are no longer programs: corpus files with tokens deleted, duplicated, swapped or replaced by operators -
+    uncrustify may refuse them; what it accepts must still come out with the same tokens"""
+    ins = [c for c in corpus.inputs() if (c.lang or corpus.lang_of(c.inp)) in lex.C_FAMILY and 200 < os.path.getsize(c.inp) < 20000]
+    ctx.rng.shuffle(ins)
+    OPS = ["+", "-", "*", "/", "&", "&&", "|", "<", ">", "<<", ">>", "::", "->", ".", "...", "?", ":", "=", "==", "++", "--", "~", "!", "%", "^", "#", "##",
+           "1.", ".5", "0x1e", "return", "case", "else", "L", "R", "u8"]
+    jobs = []
+    unc = ctx.unc()
+    for c in ins[:n]:
+        lang = c.lang or corpus.lang_of(c.inp)
+        try:
+            text = open(c.inp, "rb").read().decode("utf-8")
+        except UnicodeDecodeError:
+            continue
+        items = [it for it in lex.lex(text, lang) if it[0] == "tok"]
+        if len(items) < 10:
+            continue
+        edits = []
+        for _ in range(ctx.rng.randint(1, 6)):
+            k = ctx.rng.randrange(len(items) - 1)
+            a_, b_ = items[k], items[k + 1]
+            how = ctx.rng.randrange(5)
+            if how == 0:
+                edits.append((a_[2], a_[3], ""))                                # delete
+            elif how == 1:
+                edits.append((a_[3], a_[3], " " + text[a_[2]:a_[3]]))           # duplicate
+            elif how == 2:
+                edits.append((a_[2], a_[3], ctx.rng.choice(OPS)))               # replace by an operator / number / keyword
+            elif how == 3:
+                edits.append((a_[3], a_[3], " " + ctx.rng.choice(OPS) + " "))   # insert
+            else:
+                edits.append((a_[3], b_[2], ""))                                # close the gap to the next token
+        out = text
+        for s_, e_, r_ in sorted(set(edits), reverse=True):
+            out = out[:s_] + r_ + out[e_:]
+        p = os.path.join(workdir, "mut%04d%s" % (len(jobs), os.path.splitext(c.inp)[1]))
+        obs.write(p, out.encode("utf-8"))
+        cfgt = cfggen.random_ws_config(ctx.rng, unc) if ctx.rng.random() < 0.6 else cfggen.all_iarf(unc, "sp_", "remove")
+        jobs.append(("mutated|%d|%s" % (len(jobs), os.path.relpath(c.inp, os.path.join(corpus.REPO, "tests/input"))), p, None, cfgt, lang))
+    return jobs
+
+
 def observe_jobs(ctx, jobs, relex=None):
     from ..common import pmap_proc
     unc = ctx.unc()
@@ -316,6 +359,7 @@ def run(ctx):
     fusion_part(ctx)
     jobs = universe(ctx, 200 if quick else 100000, 150 if quick else 2500)
     jobs += hazard.jobs(ctx.unc(), ctx.rng, quick, ctx.work.sub("dense"))
+    jobs += token_mutations(ctx, 150 if quick else 3000, ctx.work.sub("mut"))
     res = observe_jobs(ctx, jobs)
     events = [e for evs, info, j in res for e in evs]
     ran = sum(1 for evs, info, j in res if info["rc"] == 0)
